@@ -47,7 +47,11 @@ Decided:
          and cached_modify_time=request.if_modified_since, the application its two default types (not swapped), the route its
          mimetype; the constructors store exactly their arguments; cache_timeout defaults to a positive number (client
          caching is on by default -- otherwise the 304 branch is dead); the application's default types are those of
-         build_file_response.
+         build_file_response.  Sibling agreement: the two endpoints hand build_file_response the same function of the request
+         / the configuration as cached_modify_time and cache_timeout (compared as sets of terminal sources).  Validator round
+         trip: no test that decides which value is handed over as cached_modify_time reads the clock (now / utcnow / today /
+         time.time) -- Last-Modified is the file's own time (R14.f, R14.k), so what the 200 branch sends must be accepted by
+         the 304 branch when echoed, also for a file dated ahead of the server's clock.
   R14.n  the body is the whole file (c14_faith.py): peek_file seeks back to the position tell() gave before the read on
          every normal path to its exit; build_file_response itself never reads from / moves the handle before it is wrapped.
   R14.b  also covers every HTTP error raised by a function of the module the endpoints call (public helpers).
@@ -62,7 +66,11 @@ file / the compared mtime comes from (_sources: all bindings, flow-insensitive);
 classes>`` (_caught_names, also ``(A,) + _OTHERS``); ``exc = Forbidden(..); raise exc``; module-level constants for the route pattern, the
 status code and ``is_breaking``; ``mtime <= t`` written as ``t >= mtime`` or as the else-branch of ``mtime > t``; the
 search loop written with a guard + continue or as ``next((p for .. if isfile(p)), None)``; keyword or positional
-arguments.  A value or test that moved into a function of the package which is *not* dissolved (public name) is an
+arguments.  A *value* that comes from a function of the package which is not dissolved (a public helper: ``self.m(..)``,
+``f(..)``) is judged through what that helper can return (_followed_returns: the sources of every ``return``, None when it can
+run off its end, parameters replaced by the arguments of the call -- read, never run), i.e. exactly as if it were written in
+line; where that is not sound (decorated / variadic / generator callee, a returned expression reading the callee's locals,
+re-bound parameters, loops or try at the end of the body) and for a *test* that moved into such a function it is an
 ANALYSIS-ERROR ("not followed"), not a violation; a private function nothing refers to any more is not on the serving path.
 """
 import ast
@@ -249,7 +257,9 @@ def _followed_returns(fi, call):
     params = set(bind)
     if params != set(cal.params()):
         return None
-    stored = set(n.id for n in walk_body(node) if isinstance(n, ast.Name) and isinstance(n.ctx, (ast.Store, ast.Del)))
+    stored = set(n.id for n in walk_body(node) if isinstance(n, ast.Name) and isinstance(n.ctx, (ast.Store, ast.Del))) | \
+        set(n.name for n in walk_body(node) if isinstance(n, (ast.ExceptHandler, ast.FunctionDef, ast.AsyncFunctionDef, ast.ClassDef))
+            and n.name)
     if stored & params:
         return None
     own = _locals_of(cal) - params
@@ -304,6 +314,69 @@ def _all_srcs(fi, expr, pred, known=()):
                 continue
         ok = False
     return ok
+
+
+def _terminal_values(fi, expr, depth=0):
+    """The normalised terminal sources of ``expr`` (through plain copies of locals and through the returns of helpers
+    that are followed), as a set of texts in the caller's terms; a binding statement that is not an expression
+    contributes '<stmt>'.  AnalysisError when a helper on the way is not followed."""
+    out = set()
+    for x in (_srcs(fi, expr) if expr is not None else []):
+        if not isinstance(x, ast.expr):
+            out.add('<stmt>')
+            continue
+        callee = _internal_callee(fi, x)
+        if callee is not None and depth < 4:
+            vals = _followed_returns(fi, x)
+            if vals is None:
+                raise AnalysisError('%s: value %s comes from %s(), which is not followed' % (fi.qualname, short(expr), callee))
+            for v in vals:
+                out |= _terminal_values(fi, v, depth + 1)
+            continue
+        out.add('<parameter %s>' % x.id if _is_param(x) else norm(x))
+    return out
+
+
+def _selection_tests(fi, expr, seen=None, depth=0):
+    """Every test whose outcome decides *which* value ``expr`` stands for: the path conditions of the statements binding
+    the locals it is copied through, and of the ``return`` statements of the helpers it is followed into (and of what those
+    return).  -> [(FuncInfo the test belongs to, test expression)]"""
+    seen = set() if seen is None else seen
+    out = []
+    if depth > 6 or expr is None:
+        return out
+    if isinstance(expr, ast.Name) and (fi, expr.id) not in seen and assigned_value(fi.node, expr.id):
+        seen.add((fi, expr.id))
+        for st, val, idx in assigned_value(fi.node, expr.id):
+            out += [(fi, t) for t, p in _conds(fi, st)]
+            if isinstance(val, ast.expr) and idx is None:
+                out += _selection_tests(fi, val, seen, depth + 1)
+    elif isinstance(expr, ast.Call) and _internal_callee(fi, expr) is not None and _followed_returns(fi, expr) is not None:
+        cal = _callee_info(fi, expr)
+        for r in returns_of(cal):
+            out += [(cal, t) for t, p in _conds(cal, r)]
+            if r.value is not None:
+                out += _selection_tests(cal, r.value, seen, depth + 1)
+    return out
+
+
+CLOCK_CALLS = {'utcnow', 'now', 'today', 'time', 'time_ns', 'monotonic', 'perf_counter'}
+
+
+def _reads_clock(fi, test):
+    """The test reads the server's clock: a call of now() / utcnow() / today() / time.time() in it, or in what a local it
+    names is bound to.  -> the call or None."""
+    todo, seen = [test], set()
+    while todo:
+        e = todo.pop()
+        for n in ast.walk(e):
+            if isinstance(n, ast.Call) and call_tail(n) in CLOCK_CALLS:
+                if call_tail(n) in ('utcnow', 'now', 'today') or isinstance(n.func, ast.Name) or norm(n.func).startswith('time.'):
+                    return n
+            if isinstance(n, ast.Name) and isinstance(n.ctx, ast.Load) and n.id not in seen and n.id not in fi.params():
+                seen.add(n.id)
+                todo += [v for st, v, idx in assigned_value(fi.node, n.id) if isinstance(v, ast.expr)]
+    return None
 
 
 def _argn(fi, call, name, pos):
